@@ -145,6 +145,8 @@ type Case struct {
 	ResolverOpts []string    `json:"resolver_opts,omitempty"`
 	Schema       SchemaModel `json:"schema"`
 	Steps        []Step      `json:"steps"`
+	// SameBase: the two schema files are sa/schema.graphqls and sb/schema.graphqls
+	SameBase bool `json:"same_base,omitempty"`
 }
 
 var seq atomic.Int64
@@ -432,10 +434,23 @@ func check(c Case) *vfrun.Failure {
 		for _, f := range old {
 			_ = os.Remove(f)
 		}
+		for _, sub := range []string{"sa", "sb"} {
+			_ = os.RemoveAll(filepath.Join(dir, sub))
+		}
+		yml := m.yml(c.Layout, c.ResolverOpts...)
 		for n, s := range m.render() {
+			if c.SameBase {
+				// the schema files share one base name in different directories: the follow-schema
+				// layout keeps their resolvers in one file (schema.resolvers.go)
+				n = "s" + strings.TrimSuffix(n, ".graphqls") + "/schema.graphqls"
+				_ = os.MkdirAll(filepath.Dir(filepath.Join(dir, n)), 0o755)
+			}
 			_ = os.WriteFile(filepath.Join(dir, n), []byte(s), 0o644)
 		}
-		_ = os.WriteFile(filepath.Join(dir, "gqlgen.yml"), []byte(m.yml(c.Layout, c.ResolverOpts...)), 0o644)
+		if c.SameBase {
+			yml = strings.Replace(yml, "\"*.graphqls\"", "\"./**/*.graphqls\"", 1)
+		}
+		_ = os.WriteFile(filepath.Join(dir, "gqlgen.yml"), []byte(yml), 0o644)
 	}
 	schema := c.Schema
 	writeSchema(schema)
@@ -799,6 +814,10 @@ func evolve(t *rapid.T, m SchemaModel, preferred []string) (SchemaModel, string)
 
 func gen(t *rapid.T) Case {
 	c := Case{Layout: rapid.SampledFrom([]string{"follow-schema", "follow-schema", "single-file"}).Draw(t, "layout")}
+	if rapid.IntRange(0, 3).Draw(t, "samebase") == 0 {
+		c.SameBase = true
+		vfrun.Label("same-base-name-schema-files:" + c.Layout)
+	}
 	if rapid.IntRange(0, 2).Draw(t, "omit_template_comment") == 0 {
 		c.ResolverOpts = append(c.ResolverOpts, "omit_template_comment")
 	}
